@@ -390,6 +390,15 @@ fn geometry_stream(r: &mut Rng, prop: &str, tier: u32, out: &mut Vec<String>) {
         out.push("ydec 1 8 1 1 0 BT709 BT1886 BT709 | n 4 4 0 0 0 0 | n 1 1 1 1 0 0 | n 1 1 1 1 0 0 | fill 1 255".into());
         out.push("yenc 1 8 1 1 0 BT709 BT709 3 3 5 0".into());
         out.push("yenc 2 10 1 0 1 BT709 BT709 5 2 5 0".into());
+        // flat-index shortcuts: 4:4:4 frames whose luma rows are tightly packed (stride == width) while each chroma plane has its
+        // own stride - overlapping rows (stride 1, stride w-1: the buffer is shorter than w*h) or wider rows (stride w+3)
+        for (w, h) in [(4u64, 4u64), (8, 3), (5, 7), (64, 2)] { for cs in [1u64, w - 1, w + 3] { for ts in [1u64, 2] {
+            let yl = format!("r {} {} {} {} 0 0 0 0 0 0 {}", w, h, w, h, w * h);
+            let cl = format!("r {} {} {} {} 0 0 0 0 0 0 {}", cs, h, w, h, (h - 1) * cs + w);
+            let line = format!("{} 8 0 0 0 BT709 BT1886 BT709 | {} | {} | {} | fill 9 255", ts, yl, cl, cl);
+            out.push(format!("ynew {}", line));
+            if prop == "C07" { out.push(format!("ydec {}", line)); }
+        } } }
         // D9: rows may overlap (a stride below the width, here 0), so the buffer length does not bound width * height;
         // the product the decoder allocates must not wrap. (2 x 2^63 and 4 x 2^62 wrap, 3 x 2^62 does not; the small
         // stride-0 frames are legal and decode row 0 repeatedly.) u8 storage only: no sample scan over 2^62 rows.
